@@ -57,6 +57,9 @@ func main() {
 	instrumentGo(*repo, *out, res, "pkg/logic/group__in.go", "verifRelaySpawn", "verifRelayDone")
 	// a push goroutine registers its session after Start() returned; the environment waits for that
 	instrumentFunc(*repo, *out, res, "pkg/logic/group__relay_push.go", "AddRtmpPushSession", "defer verifPushAdded(group)")
+	// the clock of HLS sub-sessions (last request time, expiry) goes through a hook: an environment with a
+	// clock of its own can then let them expire
+	rewriteSel(*repo, *out, res, "pkg/hls/server_sub_session.go", "time", "Now", "verifNow", false)
 	// the deferred HLS directory cleanup (a goroutine that sleeps, then looks the group up and removes
 	// files) goes through a hook, so that an environment can run it as a thread / at an instant of its own
 	rewriteText(*repo, *out, res, "pkg/logic/server_manager__.go", "\t\tdefertaskthread.Go(\n", "\t\tsm.verifDeferGo(\n")
